@@ -52,6 +52,7 @@ type Server struct {
 
 	wq         chan []byte
 	wpending   int64
+	written    int64
 	werr       error
 	wdone      chan struct{}
 	ReaderDone chan struct{}
@@ -115,7 +116,9 @@ func (s *Server) writer() {
 		if b == nil {
 			s.S.Close()
 		} else if s.werr == nil {
-			if _, err := s.S.Write(b); err != nil {
+			n, err := s.S.Write(b)
+			atomic.AddInt64(&s.written, int64(n))
+			if err != nil {
 				s.mu.Lock()
 				s.werr = err
 				s.mu.Unlock()
@@ -381,6 +384,10 @@ func (s *Server) BoundFids() int {
 }
 
 // Shutdown releases goroutines.
+// Written returns the number of bytes the client end has accepted so far
+// (net.Pipe: a write completes only when the reader has taken all of it).
+func (s *Server) Written() int64 { return atomic.LoadInt64(&s.written) }
+
 func (s *Server) Shutdown() {
 	s.S.Close()
 	s.quitOnce.Do(func() { close(s.quit) })
